@@ -94,25 +94,54 @@ def evalV (expF logF : Rat → Rat) (pb : Problem) (xopt : List Rat) : VE → Op
   | .up e => (evalV expF logF pb xopt e).map (projectUpO · pb.fixed)
   | _ => none
 
-/-- `numpy.log` of a bound: `log(0) = -inf` and `log(negative) = nan` both end up as "no bound" -/
-def logB (logF : Rat → Rat) : Option Rat → Option Rat
-  | some x => if 0 < x then some (logF x) else none
-  | none => none
+/-- one entry of a bound list as the float code sees it: no bound (`None`, or the infinity of the natural direction: `-inf` for a
+    lower, `+inf` for an upper bound), a number, `nan`, or the infinity of the WRONG direction (an empty box) -/
+inductive BV where
+  | absent
+  | val (r : Rat)
+  | nan
+  | winf
+deriving DecidableEq, Repr
 
-/-- `numpy.maximum(b, c)` of a bound; an absent lower bound is `-inf`, an absent upper bound `+inf` -/
-def maxB (isLower : Bool) (c : Rat) : Option Rat → Option Rat
-  | some x => some (ratMax x c)
-  | none => if isLower then some c else none
+def BV.ofOpt : Option Rat → BV
+  | none => .absent
+  | some r => .val r
 
-/-- bound expressions: outer `none` = Python `None`, inner `none` = no bound on that entry -/
-def evalB (expF logF : Rat → Rat) (pb : Problem) (isLower : Bool) : VE → Option Bounds
-  | .lower => pb.lower
-  | .upper => pb.upper
-  | .noneList => some (pb.p0.map fun _ => none)
-  | .log e => (evalB expF logF pb isLower e).map (·.map (logB logF))
-  | .exp e => (evalB expF logF pb isLower e).map (·.map (Option.map expF))
+/-- a bound as `_object_func` uses it: comparisons with `nan` are false, so `nan` never rejects anything -/
+def BV.toOpt : BV → Option Rat
+  | .val r => some r
+  | _ => none
+
+/-- `numpy.log` of a bound entry: `log(0) = -inf`, `log(negative) = nan`, `log(-inf) = nan`, `log(+inf) = +inf` -/
+def logB (logF : Rat → Rat) (isLower : Bool) : BV → BV
+  | .val x => if 0 < x then .val (logF x) else if x == 0 then (if isLower then .absent else .winf) else .nan
+  | .absent => if isLower then .nan else .absent
+  | .nan => .nan
+  | .winf => if isLower then .winf else .nan
+
+/-- `numpy.exp` of a bound entry -/
+def expB (expF : Rat → Rat) (isLower : Bool) : BV → BV
+  | .val x => .val (expF x)
+  | .absent => if isLower then .val 0 else .absent
+  | .nan => .nan
+  | .winf => if isLower then .winf else .val 0
+
+/-- `numpy.maximum(b, c)` -/
+def maxB (isLower : Bool) (c : Rat) : BV → BV
+  | .val x => .val (ratMax x c)
+  | .absent => if isLower then .val c else .absent
+  | .nan => .nan
+  | .winf => if isLower then .winf else .val c
+
+/-- bound expressions: outer `none` = Python `None` -/
+def evalB (expF logF : Rat → Rat) (pb : Problem) (isLower : Bool) : VE → Option (List BV)
+  | .lower => pb.lower.map (·.map BV.ofOpt)
+  | .upper => pb.upper.map (·.map BV.ofOpt)
+  | .noneList => some (pb.p0.map fun _ => BV.absent)
+  | .log e => (evalB expF logF pb isLower e).map (·.map (logB logF isLower))
+  | .exp e => (evalB expF logF pb isLower e).map (·.map (expB expF isLower))
   | .down e => (evalB expF logF pb isLower e).map (projectDownO · pb.fixed)
-  | .nanToNone e => evalB expF logF pb isLower e
+  | .nanToNone e => (evalB expF logF pb isLower e).map (·.map fun b => if b == BV.nan then BV.absent else b)
   | .noneToInf e => evalB expF logF pb isLower e
   | .maxConst e c => (evalB expF logF pb isLower e).map (·.map (maxB isLower c))
   | .ifNone c a b =>
@@ -121,12 +150,16 @@ def evalB (expF logF : Rat → Rat) (pb : Problem) (isLower : Bool) : VE → Opt
       | some _ => evalB expF logF pb isLower b
   | _ => none
 
+/-- bounds in the form `_object_func` tests them -/
+def evalBObj (expF logF : Rat → Rat) (pb : Problem) (isLower : Bool) (e : VE) : Option Bounds :=
+  (evalB expF logF pb isLower e).map (·.map BV.toOpt)
+
 /-- the function the optimiser is given, as a function of its query vector -/
 def wrapperObjective (w : Wrapper) (expF logF : Rat → Rat) (pb : Problem) (m : ModelFn) (x : List Rat) :
     Rat × Option (List Rat) :=
   let params := if w.objLog then x.map expF else x
-  let lo := w.objLower.bind (evalB expF logF pb true)
-  let up := w.objUpper.bind (evalB expF logF pb false)
+  let lo := w.objLower.bind (evalBObj expF logF pb true)
+  let up := w.objUpper.bind (evalBObj expF logF pb false)
   let r := objectFunc lo up (if w.objFixed then pb.fixed else none) (if w.objLlScale then pb.llScale else 1) m params
   (if w.negated then - r.1 else r.1, r.2)
 
@@ -140,7 +173,7 @@ inductive Step where
 abbrev History := List (List Rat × Rat)
 abbrev Strategy := History → Step
 /-- what the wrapper hands over: start vector, lower and upper bounds -/
-abbrev Opt := Option (List Rat) → Option Bounds → Option Bounds → Strategy
+abbrev Opt := Option (List Rat) → Option (List BV) → Option (List BV) → Strategy
 
 structure OptRun where
   history : History               -- every query with the value it was answered with, in order
@@ -159,8 +192,8 @@ def runOpt (obj : List Rat → Rat × Option (List Rat)) (strat : Strategy) : Na
 
 structure WrapperRun where
   start : Option (List Rat)
-  optLower : Option Bounds
-  optUpper : Option Bounds
+  optLower : Option (List BV)
+  optUpper : Option (List BV)
   run : OptRun
   result : Option (List Rat)
   reported : Option Rat
@@ -209,11 +242,14 @@ def startFull (pb : Problem) : List Rat := projectUpO (projectDownO pb.p0 pb.fix
 
 def closeTol (tol a b : Rat) : Bool := decide (ratAbs (a - b) ≤ tol * ratMax (ratAbs a) (ratAbs b))
 
+/-- entrywise `closeTol` (same length) -/
+def vecClose (tol : Rat) (a b : List Rat) : Bool := a.length == b.length && (List.zipWith (closeTol tol) a b).all id
+
 /-- value the wrapper's objective takes at a FULL natural parameter vector (what "the likelihood of the returned
     parameters" means in the units the wrapper reports) -/
 def objectiveAtFull (w : Wrapper) (expF logF : Rat → Rat) (pb : Problem) (m : ModelFn) (v : List Rat) : Rat :=
-  let lo := w.objLower.bind (evalB expF logF pb true)
-  let up := w.objUpper.bind (evalB expF logF pb false)
+  let lo := w.objLower.bind (evalBObj expF logF pb true)
+  let up := w.objUpper.bind (evalBObj expF logF pb false)
   let r := objectFunc lo up none (if w.objLlScale then pb.llScale else 1) m v
   if w.negated then - r.1 else r.1
 
@@ -224,7 +260,7 @@ def checkTrace (w : Wrapper) (expF logF : Rat → Rat) (pb : Problem) (m : Model
   let c2 := if r.run.evals.all (fixedOk pb.fixed) then [] else ["evals_fixed"]
   let c3 := match r.start with
     | none => []
-    | some _ => if r.run.evals.head? == some (startFull pb) then [] else ["first_eval_is_start"]
+    | some _ => if (r.run.evals.head?.map (vecClose tol (startFull pb))).getD false then [] else ["first_eval_is_start"]
   let c4 := match r.result with
     | none => ["no_result"]
     | some v =>
